@@ -92,4 +92,5 @@ def _build(tier: str):
 
 def jobs(tier: str) -> list[Job]:
     return [Job('histories', 'hyp', lambda: _build(tier), 2500 if tier == 'quick' else 120000),
-            Job('list-sweep', 'enum', sweeps.list_sweep, exhaustive=True)]
+            Job('list-sweep', 'enum', sweeps.list_sweep, exhaustive=True),
+            Job('slot-sweep', 'enum', sweeps.slot_sweep, exhaustive=True)]
